@@ -66,7 +66,7 @@ def gen_f2i(S, ft):
 def gen_correct(S):
     o = [T.HEADER, "Require Import Floats.SpecFloat.", "Require Import ZArith Bool Lia Reals.",
          "From Flocq Require Import Core BinarySingleNaN.",
-         "From Dasp Require Import Base.Res Base.Float Sample.Rint Sample.ConvSpec Sample.ConvFloatSpec.",
+         "From Dasp Require Import Base.Res Base.Float Sample.Rint Sample.ConvSpec Sample.ConvFloatSpec Sample.ConvFloatTactics.",
          "From DaspGen Require Import ConvGen ConvFloatGen ConvFloatProofs_i2f32 ConvFloatProofs_i2f64 ConvFloatProofs_f2i32 ConvFloatProofs_f2i64.",
          "Open Scope Z_scope.", ""]
     for ft, (p, e) in FLOATS.items():
